@@ -534,12 +534,36 @@ def c12_state_indexing(prog: Program, fr: Frame, run: Run) -> None:
     """R2: per-ID state is only touched through the index of the receive ID."""
     R = "C12.R2"
     n = 0
-    for f in prog.iter_functions():
+
+    class _Fn:  # every function of the package, nested ones (snoop's decoder class) included
+        def __init__(self, mod, node, qual):
+            self.module, self.node, self.qual, self.name = mod, node, qual, node.name
+
+        def params(self):
+            return [a.arg for a in self.node.args.posonlyargs + self.node.args.args]
+    all_fns = []
+    for mod in prog.modules.values():
+        def rec(body, prefix, mod=mod):
+            for st in body:
+                if isinstance(st, (ast.FunctionDef, ast.AsyncFunctionDef)):
+                    all_fns.append(_Fn(mod, st, prefix + st.name))
+                    rec(st.body, prefix + st.name + ".")
+                elif isinstance(st, ast.ClassDef):
+                    rec(st.body, prefix + st.name + ".")
+                else:
+                    for fld in ("body", "orelse", "finalbody"):
+                        b_ = getattr(st, fld, None)
+                        if isinstance(b_, list) and b_ and isinstance(b_[0], ast.stmt):
+                            rec(b_, prefix)
+                    for h in getattr(st, "handlers", []) or []:
+                        rec(h.body, prefix)
+        rec(mod.tree.body, "")
+    for f in all_fns:
         if not any(isinstance(x, ast.Attribute) and x.attr in STATE + ACTIVE_STATE
-                   for x in ast.walk(f.node)):
+                   for x in walk_no_nested(f.node)):
             continue
         params = f.params()
-        for x in ast.walk(f.node):
+        for x in walk_no_nested(f.node):
             # whole-array (re)assignment
             if isinstance(x, (ast.Assign, ast.AugAssign, ast.AnnAssign)):
                 tgts = x.targets if isinstance(x, ast.Assign) else [x.target]
@@ -654,6 +678,50 @@ def c12_id_tables(prog: Program, run: Run) -> None:
                                       "given re-numbers the telegrams", loc(f, x), stmt_key(x))
     if n < 2:
         run.error(R, "assignments to _can_rx_ids / _can_tx_ids not found in the constructors")
+    # ... and the callers in the package hand over every ID they were given: 0 is a valid CAN
+    # ID, so an ID list must not be filtered by truthiness
+    from .common import resolve_locals
+    m = 0
+    for f in prog.iter_functions():
+        for x in walk_no_nested(f.node):
+            if not isinstance(x, ast.Call):
+                continue
+            for k in x.keywords:
+                if k.arg not in ("can_rx_ids", "can_tx_ids"):
+                    continue
+                m += 1
+                v = resolve_locals(f.node, k.value)
+                bad = None
+                for y in ast.walk(v):
+                    if isinstance(y, (ast.ListComp, ast.GeneratorExp, ast.SetComp)):
+                        for g in y.generators:
+                            tnames = {z.id for z in ast.walk(g.target) if isinstance(z, ast.Name)}
+                            for i_ in g.ifs:
+                                for a_ in _truthy_atoms(i_):
+                                    if isinstance(a_, ast.Name) and a_.id in tnames:
+                                        bad = ast.unparse(y)
+                    if isinstance(y, ast.Call) and call_name(y) == "filter" and y.args and \
+                            isinstance(y.args[0], ast.Constant) and y.args[0].value is None:
+                        bad = ast.unparse(y)
+                if bad is None:
+                    run.ok(R, f.qual, f"{k.arg} handed over unfiltered", loc(f, x))
+                else:
+                    run.violation(R, f.qual, f"ids-filtered-by-truthiness-{k.arg}",
+                                  f"`{bad}` selects the CAN IDs by truthiness: the valid CAN ID 0 "
+                                  "is dropped and every telegram on it goes unreported",
+                                  loc(f, x), stmt_key(_stmt_of(f.node, x)))
+    if m < 2:
+        run.error(R, "fewer than 2 decoder constructions with can_rx_ids= found (anchor moved)")
+
+
+def _truthy_atoms(t: ast.AST):
+    if isinstance(t, ast.BoolOp):
+        for v in t.values:
+            yield from _truthy_atoms(v)
+    elif isinstance(t, ast.UnaryOp) and isinstance(t.op, ast.Not):
+        yield from _truthy_atoms(t.operand)
+    elif isinstance(t, (ast.Name, ast.Attribute)):
+        yield t
 
 
 def c13_callbacks(prog: Program, run: Run) -> None:
@@ -1285,7 +1353,13 @@ def c13_typestate(prog: Program, fr: Frame, run: Run) -> None:
     R = "C13.R2"
     f = fr.f
     cfg = fr.cfg
-    # who may write the reassembly buffers: only __init__ and decode_rx_frame
+    state_writers(prog, fr, run, R)
+    _c13_typestate_rest(prog, fr, run, R)
+
+
+def state_writers(prog: Program, fr: Frame, run: Run, R: str) -> None:
+    """who may write the reassembly buffers: only __init__ and decode_rx_frame"""
+    f = fr.f
     for g in prog.iter_functions():
         for x in ast.walk(g.node):
             tgts = []
@@ -1324,6 +1398,10 @@ def c13_typestate(prog: Program, fr: Frame, run: Run) -> None:
     run.ok(R, "package", "reassembly buffers are written only by IsoTpStateMachine.__init__ / "
            "decode_rx_frame (who-may-write scan of all modules)", f.loc)
 
+
+def _c13_typestate_rest(prog: Program, fr: Frame, run: Run, R: str) -> None:
+    f = fr.f
+    cfg = fr.cfg
     body = fr.branches.get("FRAME_TYPE_CONSECUTIVE")
     if body is None:
         return
